@@ -723,7 +723,7 @@ class S3Transfer:
         'GrantFullControl',
         'GrantRead',
         'GrantReadACP',
-        'GrantWriteACL',
+        'GrantWriteACP',
         'Metadata',
         'RequestPayer',
         'ServerSideEncryption',
